@@ -153,7 +153,7 @@ func (g *gettyClientHandler) OnCron(session getty.Session) {
 
 func (g *gettyClientHandler) transferHeartBeat(session getty.Session, msg message.HeartBeatMessage) error {
 	rpcMessage := message.RpcMessage{
-		ID:         int32(g.idGenerator.Inc()),
+		ID:         int32(GetGettyRemotingClient().idGenerator.Inc()),
 		Type:       message.GettyRequestTypeHeartbeatRequest,
 		Codec:      byte(codec.CodecTypeSeata),
 		Compressor: 0,
